@@ -75,6 +75,10 @@ def run(repo, rep, tier):
             '_get_subclass_names', '_get_superclass_names',
             '_get_subclass_list_for_enums', '_validate_dependencies_exist')))
 
+    r6 = rep.rule('C12.R6', 'propagated / class_origin / qualifier flavor '
+                  'bookkeeping of the class resolver')
+    inheritance_marks(repo, rep, r6)
+
     mp = repo.cls(MAIN, 'MainProvider')
     bp = repo.cls(BASE, 'BaseProvider')
 
@@ -278,3 +282,196 @@ def run(repo, rep, tier):
             rep.finding(r4, gc.qualname, flag, 'flag-unconnected', BASE,
                         gc.node.lineno, '%s does not lead to %s'
                         % (flag, helper))
+
+
+def _has_fact(facts, text, pol):
+    """a fact equivalent to `text` with polarity pol (accepts the negated
+    spelling `not text` / `a not in b`)"""
+    for t, p in facts:
+        s = norm(t)
+        if s == text and p == pol:
+            return True
+        if s == 'not ' + text and p == (not pol):
+            return True
+        if ' not in ' in text and s == text.replace(' not in ', ' in ') \
+                and p == (not pol):
+            return True
+        if ' not in ' in s and s.replace(' not in ', ' in ') == text and \
+                p == (not pol):
+            return True
+    return False
+
+
+def inheritance_marks(repo, rep, r6):
+    """C12.R6 - propagated / class_origin / qualifier-flavor bookkeeping of
+    the class resolver, decided on guard facts."""
+    from ..cfg import stmt_facts
+    RES = 'pywbem_mock/_resolvermixin.py'
+    rm = repo.cls(RES, 'ResolverMixin')
+
+    def need(n):
+        f = rm.methods.get(n)
+        if f is None:
+            raise AnalysisError('ResolverMixin.%s vanished' % n)
+        r6.functions.add(f.fq)
+        return f
+
+    def judge(ok, func, construct, fact, line, msg, case=None):
+        r6.sites += 1
+        r6.ob(ok, '%s|%s|%s' % (func.name, construct, fact), case)
+        if not ok:
+            rep.finding(r6, func.qualname, construct, fact, RES, line, msg)
+
+    # (a) _set_new_object
+    sno = need('_set_new_object')
+    facts = stmt_facts(sno.node)
+    pi = sno.params.index('propagated')
+    ii = sno.params.index('inherited_obj')
+    prop_assign = [st for st in facts if isinstance(st, ast.Assign) and
+                   norm(st.targets[0]) == 'new_obj.propagated']
+    judge(len(prop_assign) == 1 and norm(prop_assign[0].value) ==
+          'propagated', sno, 'new_obj.propagated', 'propagated-flag',
+          sno.node.lineno, 'the element is not marked with the propagated '
+          'flag its caller determined',
+          {'assign': [norm(x) for x in prop_assign]})
+    co = [(st, facts[st][0]) for st in facts if isinstance(st, ast.Assign)
+          and norm(st.targets[0]) == 'new_obj.class_origin']
+    inh = [st for st, fs in co if _has_fact(fs, 'propagated', True)]
+    new = [st for st, fs in co if _has_fact(fs, 'propagated', False)]
+    judge(len(inh) == 1 and norm(inh[0].value) ==
+          'inherited_obj.class_origin', sno, 'class_origin (inherited)',
+          'class-origin', sno.node.lineno,
+          'an overriding element must keep the class_origin of the element '
+          'it overrides (the ancestor that first introduced it)',
+          {'assign': [norm(x) for x in inh]})
+    judge(len(new) == 1 and norm(new[0].value) == 'new_class.classname',
+          sno, 'class_origin (new)', 'class-origin', sno.node.lineno,
+          'a newly introduced element must get the new class as '
+          'class_origin', {'assign': [norm(x) for x in new]})
+    judge(len(co) == len(inh) + len(new), sno, 'class_origin', 'unguarded',
+          sno.node.lineno, 'class_origin is assigned outside the '
+          'propagated / not propagated cases')
+
+    # (b) call sites in _resolve_objects
+    ro = need('_resolve_objects')
+    facts = stmt_facts(ro.node)
+    ncalls = 0
+    for st, (fs, _) in facts.items():
+        if not (isinstance(st, ast.Expr) and isinstance(st.value, ast.Call)
+                and dotted(st.value.func) == 'self._set_new_object'):
+            continue
+        c = st.value
+        if len(c.args) <= max(pi, ii) - 1:
+            continue
+        ncalls += 1
+        a_inh, a_prop = norm(c.args[ii - 1]), norm(c.args[pi - 1])
+        is_new = _has_fact(fs, 'superclass', False) or \
+            _has_fact(fs, 'obj_name not in superclass_objects', True)
+        is_override = _has_fact(fs, 'obj_name not in superclass_objects',
+                                False)
+        if is_new:
+            ok = a_inh == 'None' and a_prop == 'False'
+        elif is_override:
+            ok = a_inh != 'None' and a_prop == 'True'
+        else:
+            ok = False
+        judge(ok, ro, norm(c, 60), 'marks', st.lineno,
+              'an element %s must be resolved with inherited_obj %s and '
+              'propagated=%s' % (
+                  'the superclass does not have' if is_new else
+                  'that overrides a superclass element',
+                  'None' if is_new else 'set', not is_new),
+              {'call': norm(c, 90), 'new_element': is_new,
+               'override': is_override})
+    if ncalls < 3:
+        raise AnalysisError('_resolve_objects: %d _set_new_object calls'
+                            % ncalls)
+    # (c) elements only the superclass has
+    loops = [n for n in walk_no_nested(ro.node) if isinstance(n, ast.For)
+             and norm(n.iter) == 'superclass_objects.items()']
+    if len(loops) != 1:
+        raise AnalysisError('_resolve_objects: loop over superclass_objects '
+                            'not found')
+    lp = loops[0]
+    body = [st for st in ast.walk(lp) if st in facts]
+    stores = [st for st in body if isinstance(st, ast.Assign) and
+              norm(st.targets[0]).startswith('new_objects[')]
+    judge(len(stores) == 1 and _has_fact(
+        facts[stores[0]][0], 'obj_name not in new_objects', True), ro,
+        'inherit loop', 'only-missing', lp.lineno,
+        'superclass elements must be added exactly when the class does not '
+        'declare them', {'stores': [norm(s) for s in stores]})
+    if stores:
+        src = norm(stores[0].value)
+        defs = [st for st in body if isinstance(st, ast.Assign) and
+                norm(st.targets[0]) == src]
+        judge(len(defs) == 1 and isinstance(defs[0].value, ast.Call) and
+              norm(defs[0].value.func).endswith('.copy'), ro,
+              'inherit loop copy', 'copy', lp.lineno,
+              'an inherited element must be a copy of the superclass '
+              'element (the stored superclass must not be shared)',
+              {'def': [norm(d) for d in defs]})
+        marks = {norm(st.targets[0]): norm(st.value) for st in body
+                 if isinstance(st, ast.Assign) and
+                 norm(st.targets[0]).startswith(src + '.')}
+        judge(marks.get(src + '.propagated') == 'True', ro,
+              'inherit loop propagated', 'propagated', lp.lineno,
+              'an element the class does not redeclare must be marked '
+              'propagated', {'marks': marks})
+        co_ok = marks.get(src + '.class_origin', '').endswith(
+            '.class_origin') or (src + '.class_origin') not in marks
+        judge(co_ok, ro, 'inherit loop class_origin', 'class-origin',
+              lp.lineno, 'an inherited element keeps the class_origin of '
+              'the superclass element', {'marks': marks})
+        qmarks = [st for st in body if isinstance(st, ast.Assign) and
+                  norm(st.targets[0]) == 'qualifier.propagated']
+        judge(len(qmarks) == 1 and norm(qmarks[0].value) == 'True', ro,
+              'inherit loop qualifiers', 'propagated', lp.lineno,
+              'the qualifiers of an inherited element are propagated')
+
+    # (d) qualifier flavors
+    rq = need('_resolve_qualifiers')
+    facts = stmt_facts(rq.node)
+    stmts = list(facts)
+    nst = 0
+    for st in stmts:
+        if not (isinstance(st, ast.Assign) and
+                isinstance(st.targets[0], ast.Subscript) and
+                norm(st.targets[0].value) == 'new_quals'):
+            continue
+        nst += 1
+        fs = facts[st][0]
+        ok = _has_fact(fs, 'inh_qual.tosubclass', True) and \
+            _has_fact(fs, 'inh_qname not in new_quals', True) and \
+            isinstance(st.value, ast.Call) and \
+            norm(st.value.func).endswith('.copy')
+        judge(ok, rq, norm(st, 60), 'flavor', st.lineno,
+              'an inherited qualifier is added to the subclass element only '
+              'if its flavor is ToSubclass and the element does not '
+              'declare it, and as a copy',
+              {'facts': [(norm(t, 40), p) for t, p in fs]})
+    if nst < 2:
+        raise AnalysisError('_resolve_qualifiers: qualifier inheritance '
+                            'stores not found')
+    for st in stmts:
+        if isinstance(st, ast.Assign) and \
+                norm(st.targets[0]) == 'new_quals[inh_qname].propagated':
+            fs = facts[st][0]
+            declared = _has_fact(fs, 'inh_qname not in new_quals', False) \
+                or _has_fact(fs, 'inh_qname in new_quals', True)
+            over = _has_fact(fs, 'inh_qual.overridable', True)
+            tosub = _has_fact(fs, 'inh_qual.tosubclass', True)
+            want = 'False' if (declared and over and tosub) else 'True'
+            if declared and not tosub:
+                continue      # restricted flavor: outside this clause
+            judge(norm(st.value) == want, rq, norm(st, 60), 'propagated',
+                  st.lineno, 'a qualifier the element declares itself '
+                  '(overridable, ToSubclass) is not propagated; one that '
+                  'is copied from the superclass is',
+                  {'declared_by_element': declared, 'expected': want})
+    iq = need('_init_qualifier')
+    ini = [st for st in walk_no_nested(iq.node) if isinstance(st, ast.Assign)
+           and norm(st.targets[0]) == 'qualifier.propagated']
+    judge(len(ini) == 1 and norm(ini[0].value) == 'False', iq,
+          'qualifier.propagated', 'propagated', iq.node.lineno,
+          'a qualifier declared on the element itself is not propagated')
